@@ -81,11 +81,13 @@ public:
     void free_memory(char* memory, size_t, const char*, size_t) override
     {
         if (!inArena(memory)) { free(memory); return; }
+        // a block comes back: remember the user bytes it holds now.  (A pointer into the middle of a slot is the inline leak record
+        // of a block that was allocated with operator new and released through free/realloc: not a block, not recorded.)
+        unsigned long long a = model_of(memory);
+        if (a % SLOT != 0) return;
         if (nevents < MAXEV) {
             Event& e = events[nevents];
-            e.addr = model_of(memory);
-            e.n = 0;
-            if (e.addr < NSLOTS * SLOT && e.addr % SLOT == 0) { e.n = blockSize[e.addr / SLOT]; memcpy(evbytes[nevents], memory, e.n); }
+            e.addr = a; e.n = blockSize[a / SLOT]; memcpy(evbytes[nevents], memory, e.n);
             nevents++;
         }
     }
